@@ -6,7 +6,7 @@
                                   -> Definition src_inertia_term (n s q : Q) : Q := <expr>   (per coordinate)
     WeightedForest.split          th = sh[<expr over nbcc, k>]
                                   -> Definition src_split_index (nbcc k : Z) : Z := <expr>
-    WeightedForest.partition      valid = self.height <op> threshold,  op in {<, <=}
+    WeightedForest.partition      valid = self.height <op> threshold [| self.isleaf()],  op in {<, <=}
                                   -> Definition src_partition_strict : bool
   utils.py
     _EStep                        z[dist <op> mindist] = q,  op in {<, <=}
@@ -138,7 +138,13 @@ def translate(repo):
     vs = [s for s in _stmts(fn) if isinstance(s, ast.Assign) and isinstance(s.targets[0], ast.Name) and s.targets[0].id == "valid"]
     if len(vs) != 1:
         raise Unsupported("partition: valid assignment")
-    pstrict = _cmp_strict(vs[0].value, lambda a: ast.unparse(a) == "self.height", lambda a: ast.unparse(a) == "threshold", "partition")
+    pv = vs[0].value
+    keeps_leaves = False
+    if isinstance(pv, ast.BinOp) and isinstance(pv.op, ast.BitOr) and ast.unparse(pv.right) == "self.isleaf()":
+        keeps_leaves = True                     # valid = (self.height < threshold) | self.isleaf()
+        pv = pv.left
+    pstrict = _cmp_strict(pv, lambda a: ast.unparse(a) == "self.height", lambda a: ast.unparse(a) == "threshold", "partition")
+    meta["partition_keeps_leaves"] = keeps_leaves
     # ---- _EStep: z[dist < mindist] = q
     fn = _func(ut, "_EStep")
     zs = [s for s in ast.walk(fn) if isinstance(s, ast.Assign) and isinstance(s.targets[0], ast.Subscript)
@@ -160,7 +166,10 @@ Definition src_split_index (nbcc k : Z) : Z := (%s)%%Z.
 (* WeightedForest.partition: valid = self.height < threshold  (true: `<`, false: `<=`) *)
 Definition src_partition_strict : bool := %s.
 
+(* WeightedForest.partition: `... | self.isleaf()` present (the leaves are always kept) *)
+Definition src_partition_keeps_leaves : bool := %s.
+
 (* _EStep: z[dist < mindist] = q  (true: `<`, false: `<=`) *)
 Definition src_estep_strict : bool := %s.
-""" % (HC, UT, inertia, idx, "true" if pstrict else "false", "true" if estrict else "false")
+""" % (HC, UT, inertia, idx, "true" if pstrict else "false", "true" if keeps_leaves else "false", "true" if estrict else "false")
     return txt, meta
